@@ -2,7 +2,7 @@
 (***************************************************************************************************)
 (* C05 -- parsers are total.                                                                       *)
 (*                                                                                                 *)
-(* Three reader archetypes cover every parser named in the property's anchors:                     *)
+(* Four reader archetypes cover every parser named in the property's anchors:                      *)
 (*   "chunk"   IFF-style chunk walker  <tag,size>*  with one level of container chunks             *)
 (*             (ADT MCNK, WMO MOGP, MD21, WDT/WDL, anim/skin chunks, PTCH blocks)                  *)
 (*   "array"   counted array <count, offset, elemSize> with one level of nested arrays             *)
@@ -10,6 +10,8 @@
 (*             tables, sector-offset tables, MCIN/MAOF/MHDR offset tables)                         *)
 (*   "string"  offset into a NUL-terminated string block, and length-prefixed strings              *)
 (*             (DBC string block, MTEX/MMDX/MWMO/MOTX/MOGN name tables, M2 names, listfile)        *)
+(*   "token"   the payload level: a codec's opcode stream with state markers, ordinary tokens,     *)
+(*             runs and back references (ADPCM step markers, sparse / RLE runs, implode / LZ)      *)
 (*                                                                                                 *)
 (* The FILE is adversarial: it has a length vflen and every field the reader looks at is chosen,  *)
 (* at the moment it is read, from the boundary set Vals(vflen) -- so every file whose fields take   *)
